@@ -441,6 +441,7 @@ func (s *Sim) opSweep(op *Op) {
 			return
 		}
 		if !fi.A.CanRegister() {
+			s.tracef("%d Sweep f%d B=%v", s.OpIdx, fidx, orderB)
 			continue
 		}
 		_, qrA := s.queryRels(fi, op.QR, true)
@@ -452,6 +453,7 @@ func (s *Sim) opSweep(op *Op) {
 		if fi.Registered {
 			s.C.Checks["cache.same.registered"]++
 		}
+		s.tracef("%d Sweep f%d A=%v B=%v", s.OpIdx, fidx, orderA, orderB)
 		a, b := sortedCopy(orderA), sortedCopy(orderB)
 		if !equalInts(a, b) || countA != countB {
 			s.violate("C05", "cache.same", fmt.Sprintf("registered=%v", fi.Registered), false,
